@@ -1141,6 +1141,44 @@ def oracle_full(ctx, prog, tag):
         common.rmtree(d)
 
 
+ASSUMED_RANK_YAML = """\
+library: nm
+declarations:
+- decl: int sumit(int *values+dimension(..), int n = 1)
+- decl: void scale(double *x+dimension(..), double f = 2.0, int n = 1)
+"""
+
+
+def oracle_assumed_rank(ctx):
+    """Assumed-rank arguments (rank variants are fortran_generic entries made by process_assumed_rank, outside the
+    Lean model) combined with default arguments: generation must succeed, every default-argument variant gets
+    each rank exactly once under the one generic name, no name twice (repaired in /repo 0781edc)."""
+    from tools import shroudrun
+    d = common.scratch()
+    try:
+        path = shroudrun.write_yaml(d, "ar.yaml", ASSUMED_RANK_YAML)
+        cfg, exc, out = shroudrun.run_inproc([path], d)
+        ctx.count(1)
+        replay = {"yaml": ASSUMED_RANK_YAML}
+        if exc is not None:
+            return ctx.fail("full:assumed-rank-default-args", "assumed-rank argument with default arguments: generation raises %s: %s"
+                            % (type(exc).__name__, str(exc)[:100]), replay)
+        files = shroudrun.read_tree(d, skip_ext=(".log", ".json", ".yaml"))
+        problems, cdefs, ftab = scan_outputs(files, "NM_")
+        for key, what in problems:
+            ctx.fail("full:assumed-rank-default-args:" + key, what, replay)
+        ifaces = {k: v for t in ftab.values() for k, v in t[2].items()}
+        for name, nvar in (("sumit", 2), ("scale", 3)):
+            mem = ifaces.get(name, [])
+            ranks = sorted(m.rsplit("_", 1)[1] for m in mem)
+            want = sorted(["%dd" % k for k in range(8)] * nvar)
+            if ranks != want or len(set(mem)) != len(mem):
+                ctx.fail("full:assumed-rank-default-args:members", "generic interface %s lists %s, expected every rank 0d..7d once for each of the "
+                         "%d default-argument variants" % (name, mem, nvar), replay)
+    finally:
+        common.rmtree(d)
+
+
 def gi_correspondence(ctx, drv):
     """Tie: the model's generic tables (driver op `gi`: module-level interfaces and type-bound generics per
     class, members with the preprocessor condition in force after the model's emission functions) vs the
@@ -1587,7 +1625,8 @@ def run(ctx):
     oracle_full(ctx, dict(library="nm", wrap=(True, True, False, False), cprefix=None, containers=[
         tmpl_container([], "vec", insts2, i, [mkfn("fill", nparams=3, ndefaults=2, usesT=True), mkfn("push", usesT=True)])
         for i in range(2)]), "full")
-    ctx.note("full_generations", len(pick) + len(extra) + 2)
+    oracle_assumed_rank(ctx)
+    ctx.note("full_generations", len(pick) + len(extra) + 3)
     if drv.available() and ok:
         gi_correspondence(ctx, drv)
         mt_correspondence(ctx, drv)
